@@ -884,15 +884,25 @@ func Run(r *common.Run) error {
 				}
 				c.whist(fa, strings.Split(f[3], ","))
 			}
-			if len(f) == 4 && f[0] == "C10" && f[1] == "tee" {
+			if len(f) == 4 && f[0] == "C10" && (f[1] == "tee" || f[1] == "teer") {
 				k := -1
 				if f[2] != "-" {
 					fmt.Sscan(f[2], &k)
 				}
-				c.teeHist(k, strings.Split(f[3], ","))
+				c.teeHistRole(f[1] == "teer", k, strings.Split(f[3], ","))
 			}
 			if len(f) == 3 && f[0] == "C10" && f[1] == "wdl" {
 				c.wdlHist(strings.Split(f[2], ","))
+			}
+			if len(f) == 5 && f[0] == "C10" && f[1] == "fr" {
+				var ops []string
+				if f[4] != "-" {
+					ops = strings.Split(f[4], ",")
+				}
+				c.frHist(f[2] == "ws", f[3] == "recv", ops)
+			}
+			if len(f) == 3 && f[0] == "C10" && f[1] == "srv" {
+				c.srv(strings.Split(f[2], ","))
 			}
 			if len(f) == 4 && f[0] == "C10" && f[1] == "held" {
 				c.heldReader(f[2], f[3])
@@ -922,6 +932,17 @@ func Run(r *common.Run) error {
 				c.abandon(abandonOps[i%len(abandonOps)], kind, false)
 			}
 		}
+		for _, h := range [][]string{{"ao", "aw", "v", "dc", "ro"}, {"ao", "v", "dy", "dc", "ro"}, {"ai", "v", "x", "ri"}, {"v", "c", "dy"},
+			{"ao", "v", "db", "ai", "ro", "ri"}, {"v", "dy", "ao", "dy", "x", "aw", "ro"}, {"v", "ds", "dy", "ao", "dc", "c"}} {
+			c.srv(h)
+		}
+		for _, ws := range []bool{false, true} {
+			for _, recv := range []bool{false, true} {
+				for _, h := range [][]string{{"y", "c", "q"}, {"t1", "p"}, {"c", "t2", "q", "p"}} {
+					c.frHist(ws, recv, h)
+				}
+			}
+		}
 		for _, h := range [][]string{{"d"}, {"m", "df", "m", "dp"}, {"df", "c", "p"}, {"y", "dz", "y"}, {"m", "d"}, {"c", "dp"}} {
 			for i := 0; i < 10; i++ {
 				c.hist(true, h, "race")
@@ -932,6 +953,8 @@ func Run(r *common.Run) error {
 	r.Mark("case close-blocked")
 	c.closeBlocked()
 	c.envCases()
+	c.framingCases()
+	c.srvCases()
 	r.Mark("case abandoned transmit calls")
 	for i, op := range abandonOps {
 		for k, kind := range abandonKinds {
